@@ -305,7 +305,7 @@ class Ctx:
         consts = m.get("consts")
         rej, _ = self.validate_trace(m["module"], out, consts, shards=1, name="Redo_" + m["family"])
         self.cov["traces_validated_against_impl"] -= 1
-        return any(r[1] == m["prop"] for r in rej)
+        return any(m["prop"] in r[1].split("+") for r in rej)
 
     def replay_cases(self, family, cases_path, timeout=3600, **extra):
         """Spec -> impl: execute TLC-emitted cases on the real code; mismatches are
@@ -367,7 +367,16 @@ class Ctx:
         if spec:
             raise MachineryError("the specification contradicts itself on a logged case (not a verdict on the code): %s" % json.dumps(spec[0])[:1500])
         # a panic or non-termination observed by any driver (prop C20) fails the check that hit it
-        mine = [m for m in items if m.get("prop", self.prop) in (self.prop, "C20")]
+        # a verdict may name several properties at once ("C02+C07")
+        mine = []
+        for m in items:
+            props = m.get("prop", self.prop).split("+")
+            if self.prop in props:
+                m["prop"] = self.prop
+                mine.append(m)
+            elif "C20" in props:
+                m["prop"] = "C20"
+                mine.append(m)
         kf = load_known_findings()
         for m in mine:
             k = match_known(kf, m.get("prop", self.prop), m)
